@@ -12,7 +12,8 @@ RULE = ("frames (ny,nx) in 2..24 (non-square, odd/even); non-negative images bui
         "bright pixels; stacks of 1..5 frames; thresholds in [0,1) incl. dyadic ones; brightest-pixel fractions with "
         "round(f*npix) >= 2; paddings 1..4; float64/float32/int dtypes; every call gets a private copy. Non-trivial = "
         "threshold > 0 with a stack of >= 2 different frames, or shift != 0, or padding >= 2. Distinct = canonical JSON."
-        " Also: a live reference array refreshed in place; detector-size (240x320 .. 520x130) uint8/int8/uint16/int16 frames with saturated spots near the far corner.")
+        " Also: a live reference array refreshed in place; detector-size (240x320 .. 520x130) uint8/int8/uint16/int16 frames with saturated spots near the far corner."
+        " The stack is compared with its copy after a thresholded call.")
 ASSUMPTIONS = ["quadCell returns an unnormalised difference signal: only the mirror and batch laws apply to it",
                "correlation 'array centre' = zero-lag index N//2 on each axis; displaced copies do not wrap (compact support)",
                "shift/scale laws to 1e-9 (ratios of float sums)"]
